@@ -71,6 +71,20 @@ func dumpPrim(sb *strings.Builder, v reflect.Value, t *Type) {
 	}
 }
 
+// KeepFields, when not nil, restricts Dump to what an OLDER schema can carry: of the struct or
+// oneof named N only the first KeepFields[N] fields / alternatives exist (a later alternative of a
+// oneof is written as "none"). Used for streams written with WriterOptions.Schema.
+var KeepFields map[string]int
+
+func kept(d *Def) int {
+	if KeepFields != nil {
+		if k, ok := KeepFields[d.Name]; ok && k < len(d.Fields) {
+			return k
+		}
+	}
+	return len(d.Fields)
+}
+
 func dump(sb *strings.Builder, v reflect.Value, t *Type) {
 	switch t.Kind {
 	case KStruct:
@@ -79,7 +93,7 @@ func dump(sb *strings.Builder, v reflect.Value, t *Type) {
 			return
 		}
 		sb.WriteByte('{')
-		for i, f := range t.Def.Fields {
+		for i, f := range t.Def.Fields[:kept(t.Def)] {
 			if i > 0 {
 				sb.WriteByte(',')
 			}
@@ -93,8 +107,8 @@ func dump(sb *strings.Builder, v reflect.Value, t *Type) {
 		sb.WriteByte('}')
 	case KOneof:
 		k := int(call(v, "Type")[0].Uint())
-		if k == 0 || k > len(t.Def.Fields) {
-			if k == 0 {
+		if k == 0 || k > len(t.Def.Fields) || k > kept(t.Def) {
+			if k == 0 || k <= len(t.Def.Fields) {
 				sb.WriteString("<0>")
 			} else {
 				fmt.Fprintf(sb, "<%d:?>", k)
